@@ -8,7 +8,7 @@ from __future__ import annotations
 from core import Case
 
 PID = "C09"
-LEAN_MODULES = ["KrroodVerif.Props.C09", "KrroodVerif.Props.C09Lazy"]
+LEAN_MODULES = ["KrroodVerif.Props.C09", "KrroodVerif.Props.C09Lazy", "KrroodVerif.Props.C09Shape"]
 THEOREMS = [
     "KrroodVerif.Quant.C09_run_eq_spec",
     "KrroodVerif.Quant.C09_mk_wf",
@@ -22,6 +22,12 @@ THEOREMS = [
     "KrroodVerif.Quant.C09_consumed",
     "KrroodVerif.Quant.C09_consumed_upper",
     "KrroodVerif.Quant.C09_interleaving_independent",
+    "KrroodVerif.Quant.C09_shape_is_model",
+    "KrroodVerif.Quant.C09_shape_ok_eq_run",
+    "KrroodVerif.Quant.C09_shape_ok_eq_spec",
+    "KrroodVerif.Quant.C09_shape_ok_consumed",
+    "KrroodVerif.Quant.C09_shape_ok_the",
+    "KrroodVerif.Quant.C09_shape_the_is_model",
 ]
 MODEL_FUNCTION = "Quant.run / Quant.assertSat / Quant.mkSingle / Quant.mkRange / Quant.theRun (Model/Quantifier.lean)"
 TRUSTED = [
@@ -43,23 +49,15 @@ RULE = ("exhaustive grid: every constraint kind x bounds 0..B x n 0..N through t
 EXHAUSTIVE = True
 
 
-def extra_obligations():
-    """Regenerate the Lean transcription of the assert_satisfaction / __post_init__ bodies from /repo's CURRENT source
-    and have the kernel re-check that it equals the hand-written model (a second, translator-based tie)."""
+def _check_generated(tag: str, text: str, names):
+    """compile one generated Lean file; per obligation: does the kernel accept it, and on which axioms"""
+    import os
     import re
     import subprocess
     import core
-    sys_path_repo = core.REPO
-    names = ["KrroodVerif.Quant.Translated.C09_assert_translated_eq_model",
-             "KrroodVerif.Quant.Translated.C09_post_init_translated_eq_model"]
-    from translate.c09_translate import generate as gen, TranslationError
-    try:
-        text = gen(sys_path_repo)
-    except (TranslationError, SyntaxError, OSError) as e:
-        return [{"name": n, "ok": False, "detail": f"translator rejected the source: {e}"} for n in names]
     tmp = core.LEAN_DIR / ".lake" / "audit"
     tmp.mkdir(parents=True, exist_ok=True)
-    f = tmp / f"C09Translated_{__import__('os').getpid()}.lean"
+    f = tmp / f"C09{tag}_{os.getpid()}.lean"
     f.write_text(text + "".join(f"#print axioms {n}\n" for n in names))
     try:
         p = subprocess.run(["lake", "env", "lean", str(f)], cwd=str(core.LEAN_DIR), capture_output=True, text=True, timeout=600)
@@ -68,7 +66,8 @@ def extra_obligations():
             f.unlink()
         except OSError:
             pass
-    out = " ".join(((p.stdout or "") + (p.stderr or "")).split())
+    raw = (p.stdout or "") + (p.stderr or "")
+    out = " ".join(raw.split())
     res = []
     for n in names:
         m = re.search(r"'" + re.escape(n) + r"' depends on axioms: \[([^\]]*)\]", out)
@@ -76,6 +75,41 @@ def extra_obligations():
         ax = [a.strip() for a in m.group(1).split(",")] if m else ([] if none else None)
         ok = p.returncode == 0 and ax is not None and set(ax) <= core.ALLOWED_AXIOMS
         res.append({"name": n, "ok": ok, "axioms": ax, "detail": (p.stdout or "")[-2000:] + (p.stderr or "")[-1000:]})
+    return res
+
+
+LOOP_SHAPE = {}
+
+
+def extra_obligations():
+    """Second, translator-based tie. From /repo's CURRENT source regenerate
+    (1) the Lean transcription of the assert_satisfaction / __post_init__ bodies (result_quantification_constraint.py) and
+    (2) the description `LoopShape` of the counting loop that calls them (ResultQuantifier._evaluate__ / evaluate,
+        The._evaluate__ / evaluate / default constraint in symbolic.py),
+    and have the kernel re-check (1) translated = hand-written model for all arguments, (2) `ShapeOk rawShape` and
+    `shape = Quant.shape` by `decide` (Props/C09Shape.lean turns these into statements about all inputs)."""
+    import core
+    res = []
+    from translate.c09_translate import generate as gen, TranslationError
+    names = ["KrroodVerif.Quant.Translated.C09_assert_translated_eq_model",
+             "KrroodVerif.Quant.Translated.C09_post_init_translated_eq_model"]
+    try:
+        res += _check_generated("Translated", gen(core.REPO), names)
+    except (TranslationError, SyntaxError, OSError) as e:
+        res += [{"name": n, "ok": False, "detail": f"translator rejected the source: {e}"} for n in names]
+    from translate import c09_loop_translate as lt
+    try:
+        src = (core.REPO / "src/krrood/entity_query_language/symbolic.py").read_text()
+        d = lt.describe(src)
+        LOOP_SHAPE.clear(); LOOP_SHAPE.update(d)
+        res += _check_generated("Loop", lt.render(d), lt.OBLIGATIONS)
+    except (lt.TranslationError, SyntaxError, OSError) as e:
+        res += [{"name": n, "ok": False, "detail": f"translator rejected the source: {e}"} for n in lt.OBLIGATIONS]
+    for r in res:
+        if not r["ok"]:
+            d = r.get("detail", "")
+            why = d if d.startswith("translator rejected") else "the kernel no longer accepts it"
+            print(f"obligation broken: {r['name']} ({why}); searching a concrete failing input through the correspondence")
     return res
 
 
